@@ -304,7 +304,16 @@ func makeStringArshaler(t reflect.Type) *arshaler {
 					}
 					return nil
 				}
-				val, err = jsontext.AppendUnquote(nil, val)
+				inner := val
+				val, err = jsontext.AppendUnquote(nil, inner)
+				if err != nil && uo.Flags.Get(jsonflags.AllowInvalidUTF8) {
+					// For historical reasons, v1 also replaced an unpaired
+					// surrogate escape within the inner string with U+FFFD.
+					var innerFlags jsonwire.ValueFlags
+					if n, err2 := jsonwire.ConsumeString(&innerFlags, inner, false); err2 == nil && n == len(inner) {
+						err = nil
+					}
+				}
 				if err != nil {
 					return newUnmarshalErrorAfter(dec, t, err)
 				}
